@@ -240,17 +240,21 @@ def body_cli(case, rec):
             k = max(1, len(sc) // 2)
             parts = [sc[:k], sc[k:]]
             singles = []
+            # the two files may be of different formats (each is read by its own extension); either order
+            mixed = len(sc) % 3
+            exts = [("agp", "agp"), ("agp", "tpf"), ("tpf", "agp")][mixed]
             for i, part in enumerate(parts):
-                (d / f"in_{i}.agp").write_text(fmt(conv.mk_assembly("x", part, header=case["header"] if i == 0 else []), "agp"))
+                plain_part = part if exts[i] == "agp" else norm(part, with_tags=False)
+                (d / f"in_{i}.{exts[i]}").write_text(fmt(conv.mk_assembly("x", plain_part, header=case["header"] if i == 0 else []), exts[i]))
                 singles.append(fmt(conv.mk_assembly("x", norm(part, with_tags=False), header=case["header"] if i == 0 else []), "tpf"))
-            r = remap.run_cli_inprocess([d / "in_0.agp", d / "in_1.agp", "-o", d / "both.tpf"], script="asm_format")
+            r = remap.run_cli_inprocess([d / f"in_0.{exts[0]}", d / f"in_1.{exts[1]}", "-o", d / "both.tpf"], script="asm_format")
             if r.exit_code != 0:
-                raise Violation(f"asm-format with two input files failed: {r.exception!r}")
+                raise Violation(f"asm-format with two input files (in_0.{exts[0]}, in_1.{exts[1]}) failed: {r.exception!r} {(r.output or '')[-200:]!r}")
             got = (d / "both.tpf").read_text()
         finally:
             remap.rmtree(d)
         if got != "".join(singles):
-            raise Violation(f"asm-format in_0.agp in_1.agp -o both.tpf: output is not the concatenation of the two conversions: {first_diff(''.join(singles), got)}")
+            raise Violation(f"asm-format in_0.{exts[0]} in_1.{exts[1]} -o both.tpf: output is not the concatenation of the two conversions: {first_diff(''.join(singles), got)}")
 
 
 def diff(want, got):
@@ -287,6 +291,45 @@ def data_lines(text):
     return out
 
 
+AGP_STRANDS = {"+": 1, "-": -1, "?": 0, "0": 0, "na": 0}
+TPF_STRANDS = {"PLUS": 1, "MINUS": -1}
+
+
+def unfaithful(which, f, row):
+    """
+    'yields exactly one row': the row of an ACCEPTED sequence line has to be the one the line's own fields spell
+    (component name, coordinates, strand), read with the formats' grammar; returns a reason or None.
+    """
+    import re
+
+    from tola.assembly.fragment import Fragment
+
+    if not isinstance(row, Fragment):
+        return None
+    if which == "agp":
+        if len(f) < 9 or f[4] != "W":
+            return None
+        try:
+            want = (f[5], int(f[6]), int(f[7]))
+        except ValueError:
+            return f"component coordinates {f[6:8]} are not integers"
+        if f[8] not in AGP_STRANDS:
+            return f"orientation column {f[8]!r} is none of + - ? 0 na"
+        if (row.name, row.start, row.end, row.strand) != (*want, AGP_STRANDS[f[8]]):
+            return f"columns 6-9 spell {want} strand {AGP_STRANDS[f[8]]}"
+        return None
+    if f[0] == "GAP" or len(f) < 4:
+        return None
+    m = re.fullmatch(r"(.+):(\d+)-(\d+)", f[1])
+    if not m:
+        return f"second column {f[1]!r} is not <name>:<start>-<end>"
+    if f[3] not in TPF_STRANDS:
+        return f"strand column {f[3]!r} is neither PLUS nor MINUS"
+    if (row.name, row.start, row.end, row.strand) != (m.group(1), int(m.group(2)), int(m.group(3)), TPF_STRANDS[f[3]]):
+        return f"columns 2 and 4 spell {m.groups()} {f[3]}"
+    return None
+
+
 def body_lines(case, rec):
     which = case["format"]
     text = case["text"]
@@ -309,6 +352,9 @@ def body_lines(case, rec):
             cur = f[2]
         if sname != cur:
             raise Violation(f"{which}: row {k} from line {line!r} was put into scaffold {sname!r}, the line names {cur!r} (re-homed)")
+        why = unfaithful(which, f, _row)
+        if why:
+            raise Violation(f"{which}: line {line!r} was accepted but its row {_row!r} is not what the line says: {why}")
     # scaffold order and grouping: consecutive lines with the same name form one scaffold
     groups = []
     cur = None
@@ -372,14 +418,18 @@ def line_cases(draw):
     lines = fmt(asm, which).split("\n")[:-1]
     ops = []
     for _ in range(draw(st.integers(0, 3))):
-        op = draw(st.sampled_from(["del_col", "junk_strand", "swap_coords", "bad_number", "truncate", "blank", "comment", "dup_line", "extra_col"]))
+        op = draw(st.sampled_from(["del_col", "junk_strand", "junk_coords", "swap_coords", "bad_number", "truncate", "blank", "comment", "dup_line", "extra_col"]))
         i = draw(st.integers(0, len(lines) - 1))
         f = lines[i].split("\t")
         if op == "del_col" and len(f) > 1:
             f.pop(draw(st.integers(0, len(f) - 1)))
             lines[i] = "\t".join(f)
         elif op == "junk_strand":
-            f[-1 if which == "tpf" else min(8, len(f) - 1)] = draw(st.sampled_from(["x", "", "plus", "0"]))
+            f[-1 if which == "tpf" else min(8, len(f) - 1)] = draw(st.sampled_from(["x", "", "plus", "0", "MINUS", "--", "+-"]))
+            lines[i] = "\t".join(f)
+        elif op == "junk_coords":
+            j = 1 if which == "tpf" and len(f) > 1 else min(7, len(f) - 1)
+            f[j] = f[j] + draw(st.sampled_from([",000", "bp", "-2000", "e12", " ", ".0"]))
             lines[i] = "\t".join(f)
         elif op == "swap_coords" and which == "agp" and len(f) > 7:
             f[6], f[7] = str(10**6), "1"
